@@ -148,7 +148,7 @@ def features(case):
             if s["scatter"] and "wf" in s["run"]:
                 sub = s["run"]["wf"]
                 # an output of the subworkflow fed (also) directly by one of its inputs
-                if any(any("/" not in r for r in o["src"]) for o in sub["outputs"]):
+                if any(any("/" not in r for r in o["src"]) for o in s.get("_all_outputs", sub["outputs"])):
                     f.add("scattered-subworkflow-passthrough")
                 # an inner step that reads no source at all (defaults / constants only)
                 if any(all(not l["src"] for l in st["in"]) for st in sub["steps"]):
@@ -186,6 +186,8 @@ def cone(wf, out_ids):
             s2 = dict(s)
             if "wf" in s["run"]:
                 s2["run"] = {"wf": cone(s["run"]["wf"], need[s["id"]])}
+                # a pass-through output of a scattered subworkflow also damages its sibling outputs (nested_crossproduct)
+                s2["_all_outputs"] = s.get("_all_outputs", s["run"]["wf"]["outputs"])
             steps.append(s2)
             for l in s["in"]:
                 add(l["src"])
@@ -329,10 +331,16 @@ class C29(Prop):
                   "specification, flat_crossproduct = leaves of nested_crossproduct in the specification, and "
                   "C29_scatter_network_dot_partial composes the proved ScatterStep/GatherStep (C01) and DotProductCombinator "
                   "(C02) models: the dotproduct scatter network computes the specification's array for every input and every "
-                  "arrival order (equal lengths, pure job; flat/nested crossproduct networks not stated). The operator "
+                  "arrival order; C29_scatter_network_flat_partial (any number of ports, one depth-n gather) and "
+                  "C29_scatter_network_nested_partial (two ports, two chained gathers) do the same for the crossproducts on "
+                  "C02_cartesian_partial and C01_gather_depth_d_product / C01_many_keys (pure job, scattered ports only, size "
+                  "tokens as hypotheses). C29_merge_nested*/C29_pick_* are one-unfolding facts: the operator MODEL is the "
+                  "specification's function; only the operator correspondence ties the model to the Python code. The operator "
                   "models are tied to /repo by running the real operators on generated token trees.")
     LEVEL_NOTE = ("Not proved: the translator (token network, scatter/gather wiring, conditional and default steps), the "
-                  "engine, JavaScript evaluation, type checking; C29_scatter_network of the design is not stated. Not "
+                  "engine, JavaScript evaluation, type checking; the scatter networks are proved for a pure job over the scattered "
+                  "ports only (no when/valueFrom/default/broadcast inside; size transformers and the empty-scatter step not "
+                  "composed; nested_crossproduct for two inputs). Not "
                   "exercised: File/Directory values, CommandLineTools, loops, CWL v1.0/v1.1/v1.3. Trusted: Coq kernel + "
                   "vm_compute; Cwl/Sem.v as a reading of the CWL v1.2 text (cross-checked against cwltool on every run); "
                   "cwltool as the reference; node.js; the Python generator/renderer. No axioms.")
@@ -361,8 +369,23 @@ class C29(Prop):
     RUNNER_TIMEOUT = 500         # one runner invocation; a runner that does not finish counts as a failed run
     COQ_SHARD = 200
 
+    # floor on the cases that actually got a verdict (framework: fewer => CORRESPONDENCE-ERROR); see judged()
+    MIN_JUDGED = {"prog": 40, "prog-ref-ok": 20, "op": 250}
+
+    def judged(self, c, o):
+        """Kinds of verdict this case contributes to: a program counts when the reference gave a verdict (it finished
+        and did not crash internally), and separately when the reference SUCCEEDED (so that 'both runners fail' cannot
+        make up the floor); an operator case counts when the operator was really run."""
+        if "crash" in o or "hang" in o:
+            return []
+        if c["f"] == "prog":
+            if o["ref"].get("timeout") or o["sf"].get("timeout"):
+                return []
+            return ["prog"] + (["prog-ref-ok"] if "ok" in o["ref"] else [])
+        return ["op"]
+
     def gen(self, rng, tier):
-        n = {"quick": 24, "thorough": 240, "extended": 48}[tier]
+        n = {"quick": 40, "thorough": 240, "extended": 48}[tier]
         nops = {"quick": 320, "thorough": 3000, "extended": 600}[tier]
         progs = [G.gen_program(rng) for _ in range(n)]
         ops = [self._gen_op(rng) for _ in range(nops)]
@@ -411,8 +434,17 @@ class C29(Prop):
         style = rng.choice(["same", "gather", "gather", "flat2", "shuffled"])
         if r < 0.45:
             n = rng.choice([1, 1, 2, 2, 3, 4])
-            return {"f": "merge", "flatten": rng.random() < 0.6,
-                    "inputs": [self._gen_tok(rng, tag, rng.choice([0, 1, 1, 2, 3]), style) for _ in range(n)]}
+            ins = [self._gen_tok(rng, tag, rng.choice([0, 1, 1, 2, 3]), style) for _ in range(n)]
+            if rng.random() < 0.08:
+                # a tag whose last component is not a number somewhere in the forest: _flatten_token_list raises
+                def toks(t):
+                    yield t
+                    for x in t.get("l", []):
+                        yield from toks(x)
+                inner = [x for t in ins for x in toks(t) if x is not t]      # top-level tags stay those of a dot product
+                if inner:
+                    rng.choice(inner)["tag"] = rng.choice(["", "x", "0.y", "0.", "0.1.z"])
+            return {"f": "merge", "flatten": rng.random() < 0.6, "inputs": ins}
         if r < 0.75:
             t = self._gen_tok(rng, tag, rng.choice([1, 1, 2]), style)
             if "l" not in t and rng.random() < 0.8:
@@ -485,7 +517,10 @@ class C29(Prop):
                     async for sch in comb.combine(n, self._mk(t)):
                         res.append(sch)
                 return res
-            res = self.loop.run_until_complete(go())
+            try:
+                res = self.loop.run_until_complete(go())
+            except ValueError:        # int() on a non-numeric last tag component inside _flatten_token_list
+                return {"err": "ValueError"}
             if len(res) != 1:
                 return {"n": len(res)}
             return {"out": self._un(res[0]["out"]["token"])}
@@ -692,9 +727,10 @@ class C29(Prop):
                 return None
         f = c["f"]
         if f == "merge":
-            if "out" not in o:
+            if "out" not in o and o.get("err") != "ValueError":
                 return None
-            return f"COpMerge {coq_bool(c['flatten'])} {coq_list([coq_tok(t) for t in c['inputs']])} {coq_tok(o['out'])}"
+            return (f"COpMerge {coq_bool(c['flatten'])} {coq_list([coq_tok(t) for t in c['inputs']])} "
+                    f"{coq_opt(o.get('out'), coq_tok)}")
         if f == "pick":
             return f"COpPick {PVB[c['p']]} {coq_tok(c['t'])} {coq_opt(o.get('out'), coq_tok)}"
         if f == "l2e":
@@ -812,8 +848,8 @@ def _why(err):
     lines = [re.sub(r"^\d{4}-\d\d-\d\d \d\d:\d\d:\d\d\.\d+\s+", "", ln) for ln in lines]
     keep = []
     for i, ln in enumerate(lines):
-        if ("ERROR" in ln or "Exception" in ln or "rror:" in ln or "is incompatible" in ln or "with sink" in ln) \
-                and "Traceback" not in ln:
+        if ("ERROR" in ln or "Exception" in ln or "rror:" in ln or "is incompatible" in ln
+                or ("with sink" in ln and i > 0 and "is incompatible" in lines[i - 1])) and "Traceback" not in ln:
             keep.append(ln.strip())
             if ln.rstrip().endswith(":") and i + 1 < len(lines):
                 keep.append(lines[i + 1].strip())
